@@ -231,6 +231,50 @@ fn o_name_in_context(c: &NameCase, st: &mut Stats) -> Result<(), String> {
     o_name(c, st)
 }
 
+/// Two names of one type normalised directly after one another on one thread, for every ordered pair
+/// of names of 1 and 2 characters over letters of both cases, digits, the three separators and three
+/// case-interesting letters (see C13's pairs of types: a memo keyed by something weaker than the name
+/// shows on the second call).
+#[derive(Clone, Debug, Serialize, Deserialize)]
+pub struct NamePair {
+    pub ty: String,
+    pub first: String,
+    pub second: String,
+}
+
+const PAIR_NAME_ALPHABET: &[char] = &[
+    'a', 'b', 'c', 'k', 'm', 'n', 's', 'z', 'A', 'B', 'C', 'K', 'M', 'N', 'S', 'Z', '0', '1', '9', '-', '_', '.', '\u{c9}', '\u{3a3}', '\u{212a}',
+];
+
+fn name_pair(idx: u64) -> Option<NamePair> {
+    let k = PAIR_NAME_ALPHABET.len() as u64;
+    let n = k + k * k;
+    let per_type = n * n;
+    let ty = ["pypi", "nuget"][(idx / per_type) as usize % 2];
+    let i = idx % per_type;
+    let name = |mut j: u64| -> String {
+        if j < k {
+            PAIR_NAME_ALPHABET[j as usize].to_string()
+        } else {
+            j -= k;
+            [PAIR_NAME_ALPHABET[(j % k) as usize], PAIR_NAME_ALPHABET[(j / k) as usize]].iter().collect()
+        }
+    };
+    Some(NamePair { ty: ty.into(), first: name(i / n), second: name(i % n) })
+}
+
+fn o_name_pair(c: &NamePair, st: &mut Stats) -> Result<(), String> {
+    if known_type_index(&c.ty).is_none() || c.first.is_empty() || c.second.is_empty() {
+        return Err("bad replay case".into());
+    }
+    let first = Program { ty: c.ty.clone(), name: c.first.clone(), ops: vec![] };
+    let _ = run::<ITyped>(&first).0;
+    let _ = crate::api::parse::<ITyped>(&format!("pkg:{}/{}", c.ty, c.first.bytes().map(|b| format!("%{b:02X}")).collect::<String>()));
+    o_name(&NameCase { ty: c.ty.clone(), name: c.second.clone() }, st).map_err(|m| format!("directly after the name {:?}: {m}", c.first))?;
+    st.class("consecutive-pair");
+    Ok(())
+}
+
 pub fn sections() -> Vec<Box<dyn Section>> {
     vec![
         Box::new(Random {
@@ -265,6 +309,17 @@ pub fn sections() -> Vec<Box<dyn Section>> {
             complete: true,
         }),
         Box::new(Enumerated {
+            name: "consecutive-names-every-pair-of-short-names".into(),
+            total: Box::new(|_| {
+                let k = PAIR_NAME_ALPHABET.len() as u64;
+                2 * (k + k * k) * (k + k * k)
+            }),
+            make: Box::new(|_, i| name_pair(i)),
+            oracle: o_name_pair,
+            required: vec!["consecutive-pair"],
+            complete: true,
+        }),
+        Box::new(Enumerated {
             name: "every-scalar-value-as-name".into(),
             total: Box::new(|_| 0x110000 * 7),
             make: Box::new(|_, i| {
@@ -273,6 +328,18 @@ pub fn sections() -> Vec<Box<dyn Section>> {
             }),
             oracle: o_name,
             required: vec!["name-changed-by-rule", "name-unchanged"],
+            complete: true,
+        }),
+        Box::new(Enumerated {
+            name: "short-names-over-length-changing-case-letters".into(),
+            total: Box::new(|t: Tier| 3 * names_total(crate::chars::length_changing_alphabet(), t.pick(3, 4))),
+            make: Box::new(|t: Tier, i| {
+                let a = crate::chars::length_changing_alphabet();
+                let n = names_total(a, t.pick(3, 4));
+                Some(NameCase { ty: ["nuget", "pypi", "npm"][(i / n) as usize].into(), name: name_from_index(a, t.pick(3, 4), i % n) })
+            }),
+            oracle: o_name,
+            required: vec!["name-changed-by-rule"],
             complete: true,
         }),
         Box::new(Enumerated {
